@@ -55,7 +55,7 @@ EvCount(evs, kinds) == Cardinality({ i \in DOMAIN evs : evs[i].ev \in kinds })
 \* the set of <<property, clause>> pairs violated by this step
 Viol(pre, a, r, post, dig0, dig1, st1, st2) ==
   LET c    == a.c
-      t    == pre.now + a.dt
+      t    == pre.now + a.dt + Skew(c)
       cs   == pre.ch[c]
       cur  == cs.cur
       ps   == post.ch[c]
@@ -209,7 +209,7 @@ Viol(pre, a, r, post, dig0, dig1, st1, st2) ==
   \cup { <<"C21", "status-gates-use">> : x \in
            IF Consumer /\ r = "ok" /\ ~G_ClientActive(pre, c, t) THEN {1} ELSE {} }
   \cup { <<"C21", "status-exact">> : x \in
-           IF \E d \in Chains : st2[d] # Status(post, d, post.now) THEN {1} ELSE {} }
+           IF \E d \in Chains : st2[d] # Status(post, d, post.now + Skew(d)) THEN {1} ELSE {} }
   \cup { <<"C21", "latest-height-monotone">> : x \in
            IF ps.cons # {} /\ cs.cons # {} /\ MaxOf(ps.cons) < MaxOf(cs.cons) THEN {1} ELSE {} }
   \cup { <<"C21", "client-changes-only-by-client-messages">> : x \in
@@ -227,7 +227,7 @@ TraceInit == l = 1 /\ S = InitOf(Trace[1]) /\ obs = ObsOf(Trace[1])
 Sanity(ln, pre, post) ==
     LET c == ln.a.c  o == Cp(ln.a.c) IN
        { <<"X", "height-not-incremented">> : x \in IF ln.st.ch[c].h = pre.ch[c].h + 1 THEN {} ELSE {1} }
-  \cup { <<"X", "time">> : x \in IF ln.st.now = pre.now + ln.a.dt /\ ln.st.ch[c].bt[ln.st.ch[c].h + 1] = ln.st.now THEN {} ELSE {1} }
+  \cup { <<"X", "time">> : x \in IF ln.st.now = pre.now + ln.a.dt /\ ln.st.ch[c].bt[ln.st.ch[c].h + 1] = ln.st.now + Skew(c) THEN {} ELSE {1} }
   \cup { <<"X", "other-chain-changed">> : x \in
            IF /\ ln.st.ch[o].h = pre.ch[o].h /\ ProvOf(ln.st.ch[o].cur) = pre.ch[o].cur
               /\ SetOf(ln.st.ch[o].cons) = pre.ch[o].cons /\ ln.st.ch[o].log = pre.ch[o].log
@@ -241,7 +241,7 @@ TraceNext ==
        ELSE LET a  == ln.a
                 c  == a.c
                 j  == ln.st.ch[c]
-                S2 == [Commit(S, c, S.now + a.dt, ProvOf(j.cur), SetOf(j.cons), j.frozen, j.log)
+                S2 == [Commit(S, c, S.now + a.dt + Skew(c), ProvOf(j.cur), SetOf(j.cons), j.frozen, j.log)
                          EXCEPT !.ch[c].app = AppOf(j.app)]
             IN /\ Report(ln, Sanity(ln, S, S2)
                              \cup Viol(S, a, ln.res, S2, obs[c].dig, j.dig,
